@@ -1,0 +1,21 @@
+//go:build verif
+
+package syslog
+
+// The built-in logger's Panic / Panicf never return: they print if the level permits and panic at every level (the
+// repaired F-C10b; before it they returned silently at level fatal). The singleton registry's duplicate-name check
+// relies on it (RegisterSingleton/[duplicate-name-rejected]: C07, C10). `panics`: the explicit panic statement is the
+// function's job, so it carries no unreachability obligation; `ensures false` is owed by every normal return.
+//@ func (*logger).Panicf
+//@ property C07 C10
+//@ panics
+//@ requires [logger-built] l != nil
+//@ assigns nothing
+//@ ensures [never-returns] false
+
+//@ func (*logger).Panic
+//@ property C07 C10
+//@ panics
+//@ requires [logger-built] l != nil
+//@ assigns nothing
+//@ ensures [never-returns] false
